@@ -275,6 +275,11 @@ def render(spec):
         args = ["id = \"%s_C%d\"" % (U, i)]
         if c["cloning"] and ov not in ("clone", "both"):
             args.append("clone_if_necessary")
+        if (not c["cloning"]) and ov in ("clone", "both") and t["clone"] and t["cap"] is None:
+            # the annotation allows cloning, the registration forbids it (`.never_clone()` below): never-clone it is
+            args.append("clone_if_necessary")
+        if c["fallible"] and c.get("allow_fallback"):
+            args.append("allow(error_fallback)")
         if c["fallible"]:
             emit_err("c", i)
         # `"method": true`: the constructor is an associated function inside a `#[pavex::methods] impl` block
@@ -331,6 +336,8 @@ def render(spec):
             emit_err("h", i)
         # custom (non-standard) methods need an explicit opt-in (C07)
         nonstd = ", allow(non_standard_methods)" if any(x not in STANDARD_METHODS for x in (h.get("methods") or [h.get("method", "GET")])) else ""
+        if h["fallible"] and h.get("allow_fallback"):
+            nonstd = (", allow(non_standard_methods, error_fallback)" if nonstd else ", allow(error_fallback)")
         if h.get("any") == "all":
             # MethodGuard::Any: matches every HTTP method, well-known or not
             w("#[pavex::route(path = \"%s\", id = \"%s_H%d\", allow(any_method, non_standard_methods))]" % (h["path"], U, i))
@@ -368,13 +375,13 @@ def render(spec):
         ids = (", " + _ids(m["ins"])) if m["ins"] else ""
         fail = ("if should(\"%s.m%d\") { log(format!(\"fail %s.m%d\")); return Err(%s); } " % (M, i, M, i, err_ty("m", i))) if m["fallible"] else ""
         if m["kind"] == "wrap":
-            w("#[pavex::wrap(id = \"%s_M%d\")]" % (U, i))
+            w("#[pavex::wrap(id = \"%s_M%d\"%s)]" % (U, i, ", allow(error_fallback)" if (m["fallible"] and m.get("allow_fallback")) else ""))
             ret = "Result<Response, %s>" % err_ty("m", i) if m["fallible"] else "Response"
             fin = "Ok(r)" if m["fallible"] else "r"
             w("pub async fn m%d<C>(next: Next<C>%s) -> %s where C: IntoFuture<Output = Response> { %slog(format!(\"wrap-start %s.m%d : %s\"%s)); let r = next.await; log(format!(\"wrap-end %s.m%d\")); %s }" % (
                 i, (", " + params) if params else "", ret, fail, M, i, _fmt_ids(m["ins"]), ids, M, i, fin))
         elif m["kind"] == "pre":
-            w("#[pavex::pre_process(id = \"%s_M%d\")]" % (U, i))
+            w("#[pavex::pre_process(id = \"%s_M%d\"%s)]" % (U, i, ", allow(error_fallback)" if (m["fallible"] and m.get("allow_fallback")) else ""))
             ret = "Result<Processing, %s>" % err_ty("m", i) if m["fallible"] else "Processing"
             cont = "Ok(Processing::Continue)" if m["fallible"] else "Processing::Continue"
             early = "Processing::EarlyReturn(Response::accepted())"
@@ -383,7 +390,7 @@ def render(spec):
             w("pub fn m%d(%s) -> %s { %slog(format!(\"pre %s.m%d : %s\"%s)); if should(\"early:%s.m%d\") { log(format!(\"early %s.m%d\")); return %s; } %s }" % (
                 i, params, ret, fail, M, i, _fmt_ids(m["ins"]), ids, M, i, M, i, early, cont))
         else:
-            w("#[pavex::post_process(id = \"%s_M%d\")]" % (U, i))
+            w("#[pavex::post_process(id = \"%s_M%d\"%s)]" % (U, i, ", allow(error_fallback)" if (m["fallible"] and m.get("allow_fallback")) else ""))
             ret = "Result<Response, %s>" % err_ty("m", i) if m["fallible"] else "Response"
             fin = "Ok(r)" if m["fallible"] else "r"
             w("pub fn m%d(r: Response%s) -> %s { %slog(format!(\"post %s.m%d : %s\"%s)); %s }" % (
